@@ -49,9 +49,10 @@ def main():
             if rc != 0:
                 print(name, "patch does not apply:", o[:200]); continue
             try:
-                rc, o = sh(test_cmd, cwd="/repo")
-                m["suite"] = "passes" if rc == 0 else "FAILS"
-                m["suite_cmd"] = test_cmd
+                if "--no-suite" not in sys.argv or "suite" not in m:
+                    rc, o = sh(test_cmd, cwd="/repo")
+                    m["suite"] = "passes" if rc == 0 else "FAILS"
+                    m["suite_cmd"] = test_cmd
                 sh("git -C /repo checkout -- Cargo.lock 2>/dev/null")
                 for c in checks:
                     rc, o = sh("./check %s --tier quick" % c, cwd="/verif")
